@@ -30,14 +30,14 @@ Note: the test is generated automatically by #[nutype] macro.
         Some(quote!(
             #[test]
             fn should_have_consistent_lower_and_upper_boundaries() {
-                assert!(#upper > #lower, #msg);
+                assert!(#upper > #lower, "{}", #msg);
             }
         ))
     } else {
         Some(quote!(
             #[test]
             fn should_have_consistent_lower_and_upper_boundaries() {
-                assert!(#upper >= #lower, #msg);
+                assert!(#upper >= #lower, "{}", #msg);
             }
         ))
     }
